@@ -18,25 +18,32 @@ Definition len_ok (len : Q) (d : vec) : bool :=
 
 Definition near_int (q : Q) : bool :=
   let f := q - inject_Z (Qfloor q) in Qle_bool f amb_eps || Qle_bool (1 - amb_eps) f.
-(* a coordinate along which the ray does not move is computed exactly by the implementation *)
-Definition amb_coord (x size dcomp : Q) : bool := if Qeq_bool dcomp 0 then false else near_int (x / size).
+(* a coordinate along which the ray does not move is a constant double x: the implementation's <int>(x / size) is
+   exact when x / size is exactly an integer, and decided by rounding when it is within amb_eps of one without being one
+   (x = fl(k * size) for a cell size that is not a dyadic rational) *)
+Definition is_int (q : Q) : bool := Qeq_bool q (inject_Z (Qfloor q)).
+Definition amb_coord (x size dcomp : Q) : bool :=
+  if Qeq_bool dcomp 0 then near_int (x / size) && negb (is_int (x / size)) else near_int (x / size).
 
 Definition amb_cart (steps d : vec) (p : vec) : bool :=
   let '(dx, dy, dz) := steps in let '(x, y, z) := p in let '(d1, d2, d3) := d in
   amb_coord x dx d1 || amb_coord y dy d2 || amb_coord z dz d3.
 
 Definition near_sq (s b : Q) : bool := Qle_bool (Qabs (s - b * b)) (pow2 (-38) * s).
-(* a ray parallel to the axis has exact x, y: its radius is decided exactly by the implementation *)
+(* a ray parallel to the axis has constant x, y: its radius is decided exactly by the implementation when it is
+   exactly on a ring border, by rounding when it is within the tolerance of one without being on it *)
 Definition amb_r (g : cylgrid) (d1 d2 s : Q) : bool :=
-  if Qeq_bool d1 0 && Qeq_bool d2 0 then false else
+  let fixed := Qeq_bool d1 0 && Qeq_bool d2 0 in
   let i := ir_of (Z.to_nat (cg_nr g) + 2) s (cg_rmin g) (cg_dr g) in
-  near_sq s (cg_rmin g + inject_Z i * cg_dr g) || near_sq s (cg_rmin g + inject_Z (i + 1) * cg_dr g)
-  || near_sq s (cg_rmin g + inject_Z (i - 1) * cg_dr g).
+  let near b := near_sq s b && negb (fixed && Qeq_bool s (b * b)) in
+  near (cg_rmin g + inject_Z i * cg_dr g) || near (cg_rmin g + inject_Z (i + 1) * cg_dr g)
+  || near (cg_rmin g + inject_Z (i - 1) * cg_dr g).
 
 Definition amb_angle (x y : Q) (theta : Z) : bool :=
   match udir theta with
   | None => true
   | Some u =>
+    if (theta =? 0)%Z then false else      (* the border at 0 = 360 degrees is the test on |y| *)
     let delta := amb_eps * 4 * (Qabs x + Qabs y) in
     let '(a, b) := cross3 u x y in
     let s1 := sign_q3 (a - delta, b) in let s2 := sign_q3 (a + delta, b) in let s3 := sign_q3 (dot3 u x y) in
@@ -46,9 +53,10 @@ Definition amb_angle (x y : Q) (theta : Z) : bool :=
 Definition amb_phi (g : cylgrid) (d1 d2 x y : Q) : bool :=
   if (cg_nphi g =? 1)%Z then false
   else if (Qeq_bool y 0 && Qeq_bool d2 0) || (Qeq_bool x 0 && Qeq_bool d1 0) then false
-  else Qle_bool (Qabs y) (amb_eps * 4 * (Qabs x + Qabs y))
-       || existsb (fun j => amb_angle x y (j * cg_dphi g)%Z)
-                  (map (fun k => (k + 1)%Z) (zrange (Z.to_nat (360 / cg_dphi g - 1)))).
+  else if Qle_bool (Qabs y) (amb_eps * 4 * (Qabs x + Qabs y)) then true
+  else (* the sector found is exact: only its two borders can be close *)
+    let gs := gsector (cg_dphi g) x y in
+    if amb_angle x y ((gs * cg_dphi g) mod 360)%Z then true else amb_angle x y (((gs + 1) * cg_dphi g) mod 360)%Z.
 Definition amb_cyl (g : cylgrid) (d : vec) (p : vec) : bool :=
   let '(x, y, z) := p in let '(d1, d2, d3) := d in
   amb_r g d1 d2 (x * x + y * y) || amb_phi g d1 d2 x y || amb_coord z (cg_dz g) d3.
@@ -105,3 +113,10 @@ Definition check_phi (g : cylgrid) (x y phi : Q) : bool :=
   amb_phi g 1 1 x y ||
   (iphi_sector (cg_nphi g) (cg_dphi g) x y =?
    (if (cg_nphi g =? 1)%Z then 0 else iphi_of_phi (inject_Z (cg_nphi g * cg_dphi g)) (inject_Z (cg_dphi g)) phi))%Z.
+
+(* the model's exact chord of a Cartesian cell (slab method, the quantity of theorem
+   C10_cartesian_cell_error_at_most_one_step) against the fraction of the segment that the harness found in that cell
+   by cutting the segment at every grid plane (exact, Fractions) *)
+Definition check_chord (steps start stop : vec) (len : Q) (c : cell) (fr : Q) : bool :=
+  let d := vsub stop start in
+  Qeq_bool (chord_cart steps start (vscale (/ len) d) len c) (fr * len).
